@@ -522,13 +522,33 @@ pub fn spec(check: &str, tier: &str) -> Option<CheckSpec> {
                 }
                 level.push_str(&format!("; {} LIT / Notify programs with a stop/explore region or a skip_branch at every placement", n));
             }
+            // the same oracles with a pre-emption bound (the bound changes which alternatives are
+            // queued, not the order in which queued ones are explored): 3-thread programs
+            let mut js14 = jobs("C14", tier, progs, &cfg);
+            {
+                let (asc3, _) = asc_programs(tier);
+                let mut three: Vec<Program> = asc3.into_iter().filter(|p| p.threads.len() >= 4).collect();
+                three.extend(lock_programs(tier).0.into_iter().filter(|p| p.threads.len() >= 4));
+                let step = if tier == "quick" { (three.len() / 150).max(1) } else { 1 };
+                let sample: Vec<Program> = three.into_iter().step_by(step).collect();
+                for b in [1usize, 2, 3] {
+                    let mut cb = cfg.clone();
+                    cb.preemption_bound = Some(b);
+                    let mut more = jobs("C14", tier, sample.clone(), &cb);
+                    for j in more.iter_mut() {
+                        j.id = format!("{}-pb{}", j.id, b);
+                    }
+                    js14.extend(more);
+                }
+                level.push_str("; 3-thread A-sc / LOCK programs also with preemption_bound 1, 2, 3");
+            }
             Some(CheckSpec {
                 id: "C14",
                 level: "model_checking",
                 rule: "every program of the A-sc, LIT, LOCK, WAIT and CHAN families; every iteration's decision path (hook H1) is checked by a streaming depth-first-order oracle; non-trivial = >= 2 iterations",
                 assumptions: vec!["the decision path handed out by hook H1 is a faithful copy of loom's path"],
                 wall_cap: wall,
-                jobs: jobs("C14", tier, progs, &cfg),
+                jobs: js14,
                 self_checks: vec![],
                 completed_level: level,
                 abort_is_violation: true,
